@@ -9,6 +9,8 @@ import (
 	"context"
 	"encoding/json"
 	"fmt"
+	"google.golang.org/grpc"
+	"regexp"
 	"sort"
 	"strings"
 	"sync"
@@ -56,7 +58,7 @@ func vrgUnder(p *sdcpb.Path, stored []string) bool {
 			if i >= len(stored) {
 				return false
 			}
-			if v, given := pe.GetKey()[k]; given && v != stored[i] {
+			if v, given := pe.GetKey()[k]; given && v != stored[i] && !vrgGlob(v, stored[i]) {
 				return false
 			}
 			i++
@@ -64,6 +66,30 @@ func vrgUnder(p *sdcpb.Path, stored []string) bool {
 	}
 	return true
 }
+
+// vrgGlob: a '*' in a requested key value stands for any run of characters (the oracle's own matcher, written
+// without regexp: prefix, inner pieces in order, suffix)
+func vrgGlob(pattern, s string) bool {
+	if !strings.Contains(pattern, "*") {
+		return false
+	}
+	parts := strings.Split(pattern, "*")
+	if !strings.HasPrefix(s, parts[0]) {
+		return false
+	}
+	s = s[len(parts[0]):]
+	for _, p := range parts[1 : len(parts)-1] {
+		i := strings.Index(s, p)
+		if i < 0 {
+			return false
+		}
+		s = s[i+len(p):]
+	}
+	return strings.HasSuffix(s, parts[len(parts)-1])
+}
+
+// a key leaf of the last list entry of a path: ...[key=value]/key=value
+var vrgKeyLeaf = regexp.MustCompile(`\[([^=\]]+)=([^\]]*)\]/([^/=\[]+)=(.*)$`)
 
 func vrgFlatten(prefix string, v any, out *[]string) {
 	switch x := v.(type) {
@@ -136,6 +162,10 @@ func TestVerifReplayGetData(t *testing.T) {
 		"two-key list, both keys":                 {{Elem: []*sdcpb.PathElem{{Name: "doublekey", Key: map[string]string{"key1": "a", "key2": "b"}}}}},
 		"two-key list, only the second key (= b)": {{Elem: []*sdcpb.PathElem{{Name: "doublekey", Key: map[string]string{"key2": "b"}}}}},
 		"unknown path":                            {{Elem: []*sdcpb.PathElem{{Name: "nosuchthing"}}}},
+		"state data of a named (candidate) datastore, which holds none":      {ifPath("ethernet-1/1")},
+		"wildcard key, a leaf of every entry":                                {{Elem: []*sdcpb.PathElem{{Name: "interface", Key: map[string]string{"name": "*"}}, {Name: "description"}}}},
+		"wildcard inside a key value":                                        {{Elem: []*sdcpb.PathElem{{Name: "interface", Key: map[string]string{"name": "ethernet-1/1*"}}, {Name: "description"}}}},
+		"two-key list, wildcard for the first key":                           {{Elem: []*sdcpb.PathElem{{Name: "doublekey", Key: map[string]string{"key1": "*", "key2": "c"}}}}},
 		"an entry in the middle of the stream holds bytes that are no value": {{Elem: []*sdcpb.PathElem{{Name: "interface"}}}},
 	}
 	requests["two list entries, one of them stored without its key leaf"] = []*sdcpb.Path{ifPath("ethernet-1/2")}
@@ -202,7 +232,12 @@ func TestVerifReplayGetData(t *testing.T) {
 								k := strings.Join(u.GetPath(), "\x00")
 								// the config store of the cache matches the requested path as a prefix of the stored key, without
 								// a delimiter behind it: interface,ethernet-1/1 also matches interface,ethernet-1/10,...
-								if strings.HasPrefix(strings.Join(u.GetPath(), ","), strings.Join(p, ",")) && !seen[k] {
+								// ... and a '*' in the requested key is a pattern (".*")
+								hit := strings.HasPrefix(strings.Join(u.GetPath(), ","), strings.Join(p, ","))
+								if jp := strings.Join(p, ","); strings.Contains(jp, "*") {
+									hit, _ = regexp.MatchString("^"+strings.ReplaceAll(regexp.QuoteMeta(jp), `\*`, ".*"), strings.Join(u.GetPath(), ","))
+								}
+								if hit && !seen[k] {
 									seen[k] = true
 									ch <- u
 								}
@@ -254,7 +289,12 @@ func TestVerifReplayGetData(t *testing.T) {
 						close(out)
 					}
 				}()
-				err = d.Get(ctx, &sdcpb.GetDataRequest{Name: "dev1", Path: paths, DataType: sdcpb.DataType_CONFIG, Encoding: enc, Datastore: dstore}, out)
+				dataType := sdcpb.DataType_CONFIG
+				if strings.HasPrefix(rname, "state data of a named") {
+					dataType = sdcpb.DataType_STATE
+					dstore = &sdcpb.DataStore{Type: sdcpb.Type_MAIN, Name: "cand"}
+				}
+				err = d.Get(ctx, &sdcpb.GetDataRequest{Name: "dev1", Path: paths, DataType: dataType, Encoding: enc, Datastore: dstore}, out)
 			}()
 			cancel()
 			var got []string
@@ -276,6 +316,22 @@ func TestVerifReplayGetData(t *testing.T) {
 					}
 				}
 			}
+			if enc == sdcpb.Encoding_JSON || enc == sdcpb.Encoding_JSON_IETF {
+				// a JSON list entry is written with its key leaves, requested or not: they are the entry's name in that
+				// encoding, not leaves outside the requested paths
+				inWant := map[string]bool{}
+				for _, w := range want {
+					inWant[w] = true
+				}
+				kept := got[:0]
+				for _, g := range got {
+					if m := vrgKeyLeaf.FindStringSubmatch(g); m != nil && m[1] == m[3] && m[2] == m[4] && !inWant[g] {
+						continue
+					}
+					kept = append(kept, g)
+				}
+				got = kept
+			}
 			sort.Strings(want)
 			sort.Strings(got)
 			in := fmt.Sprintf("request=%s,encoding=%s", rname, enc)
@@ -293,6 +349,13 @@ func TestVerifReplayGetData(t *testing.T) {
 				if err == nil {
 					fmt.Printf("REPLAY-FAIL fn=%s clause=requestedPaths input=%s why=no error, %d leaves returned although one stored entry cannot be read\n", fn, in, len(got))
 					fmt.Printf("REPLAY-FAIL fn=%s clause=success_answers_every_stored_update input=%s why=no error, %d leaves returned although one stored entry cannot be read\n", reader, in, len(got))
+				}
+				continue
+			}
+			if strings.HasPrefix(rname, "state data of a named") {
+				// a combination no store answers is refused, it does not pass for an empty answer
+				if err == nil || len(got) > 0 {
+					fmt.Printf("REPLAY-FAIL fn=%s clause=a_request_that_selects_no_store_is_refused input=%s why=err=%v, %d leaves returned\n", fn, in, err, len(got))
 				}
 				continue
 			}
@@ -320,4 +383,162 @@ func TestVerifReplayGetData(t *testing.T) {
 	fmt.Printf("REPLAY-CASES fn=%s n=%d\n", "(*datastore.Datastore).handleGetDataUpdatesSTRING", n/4)
 	fmt.Printf("REPLAY-CASES fn=%s n=%d\n", "(*datastore.Datastore).handleGetDataUpdatesPROTO", n/4)
 	fmt.Printf("REPLAY-CASES fn=%s n=%d\n", "(*datastore.Datastore).handleGetDataUpdatesJSON", n/2)
+}
+
+// TestVerifReplayGetStores: the stores a request reads are a function of the request alone. Every ordered pair of
+// requests (data type x datastore type x candidate name, GetData and Subscribe) is served by getStores one after the
+// other and each answer is compared with the table the contract states.
+func TestVerifReplayGetStores(t *testing.T) {
+	fn := "datastore.getStores"
+	type rq struct {
+		name string
+		msg  func() proto.Message
+		want []cachepb.Store
+	}
+	var reqs []rq
+	for _, dt := range []sdcpb.DataType{sdcpb.DataType_ALL, sdcpb.DataType_CONFIG, sdcpb.DataType_STATE} {
+		for _, ty := range []sdcpb.Type{sdcpb.Type_MAIN, sdcpb.Type_CANDIDATE, sdcpb.Type_INTENDED} {
+			for _, cand := range []string{"", "cand"} {
+				dt, ty, cand := dt, ty, cand
+				var want []cachepb.Store
+				switch {
+				case ty == sdcpb.Type_INTENDED:
+					want = []cachepb.Store{cachepb.Store_INTENDED}
+				case dt == sdcpb.DataType_ALL && cand == "":
+					want = []cachepb.Store{cachepb.Store_CONFIG, cachepb.Store_STATE}
+				case dt == sdcpb.DataType_ALL, dt == sdcpb.DataType_CONFIG:
+					want = []cachepb.Store{cachepb.Store_CONFIG}
+				case dt == sdcpb.DataType_STATE && cand == "":
+					want = []cachepb.Store{cachepb.Store_STATE}
+				}
+				reqs = append(reqs, rq{fmt.Sprintf("GetData(%s,%s,name=%q)", dt, ty, cand), func() proto.Message {
+					return &sdcpb.GetDataRequest{DataType: dt, Datastore: &sdcpb.DataStore{Type: ty, Name: cand}}
+				}, want})
+			}
+		}
+		dt := dt
+		want := map[sdcpb.DataType][]cachepb.Store{sdcpb.DataType_ALL: {cachepb.Store_CONFIG, cachepb.Store_STATE}, sdcpb.DataType_CONFIG: {cachepb.Store_CONFIG}, sdcpb.DataType_STATE: {cachepb.Store_STATE}}[dt]
+		reqs = append(reqs, rq{fmt.Sprintf("Subscription(%s)", dt), func() proto.Message { return &sdcpb.Subscription{DataType: dt} }, want})
+	}
+	same := func(a, b []cachepb.Store) bool {
+		if len(a) != len(b) {
+			return false
+		}
+		for i := range a {
+			if a[i] != b[i] {
+				return false
+			}
+		}
+		return true
+	}
+	n := 0
+	reported := map[string]bool{}
+	for _, first := range reqs {
+		for _, second := range reqs {
+			n++
+			func() {
+				defer func() {
+					if r := recover(); r != nil {
+						fmt.Printf("REPLAY-FAIL fn=%s clause=panic input=%s then %s panic=%v\n", fn, first.name, second.name, r)
+					}
+				}()
+				g1 := append([]cachepb.Store{}, getStores(first.msg())...)
+				g2 := append([]cachepb.Store{}, getStores(second.msg())...)
+				if !same(g1, first.want) && !reported[first.name] {
+					reported[first.name] = true
+					fmt.Printf("REPLAY-FAIL fn=%s clause=stores_of_the_request input=%s why=reads %v, expected %v\n", fn, first.name, g1, first.want)
+				}
+				if !same(g2, second.want) && !reported[first.name+">"+second.name] {
+					reported[first.name+">"+second.name] = true
+					fmt.Printf("REPLAY-FAIL fn=%s clause=stores_of_the_request input=%s served after %s why=reads %v, expected %v\n", fn, second.name, first.name, g2, second.want)
+				}
+			}()
+		}
+	}
+	fmt.Printf("REPLAY-CASES fn=%s n=%d\n", fn, n)
+}
+
+type vrgStream struct {
+	grpc.ServerStream
+	ctx      context.Context
+	cancel   context.CancelFunc
+	m        sync.Mutex
+	sent     int
+	failFrom int // Send fails from this message on (0: never)
+	goneAt   int // the client goes away (context cancelled) when this many messages were sent (0: never)
+}
+
+func (s *vrgStream) Context() context.Context { return s.ctx }
+func (s *vrgStream) Send(*sdcpb.SubscribeResponse) error {
+	s.m.Lock()
+	defer s.m.Unlock()
+	s.sent++
+	if s.goneAt > 0 && s.sent >= s.goneAt {
+		s.cancel()
+	}
+	if s.failFrom > 0 && s.sent >= s.failFrom {
+		return fmt.Errorf("stream closed")
+	}
+	return nil
+}
+
+// TestVerifReplaySubscribe (C20): a Subscribe call comes back when the client is gone or the stream refuses the
+// answers, however many subscriptions the request carries.
+func TestVerifReplaySubscribe(t *testing.T) {
+	fn := "(*datastore.Datastore).Subscribe"
+	sv, _ := proto.Marshal(&sdcpb.TypedValue{Value: &sdcpb.TypedValue_StringVal{StringVal: "hallo 00"}})
+	n := 0
+	for _, nsub := range []int{1, 2, 3} {
+		for _, how := range []string{"the client goes away after the first answers", "the stream refuses the second round of answers"} {
+			n++
+			ctrl := gomock.NewController(t)
+			cc := mockcacheclient.NewMockClient(ctrl)
+			cc.EXPECT().ReadCh(gomock.Any(), gomock.Any(), gomock.Any(), gomock.Any(), gomock.Any()).AnyTimes().DoAndReturn(
+				func(_ context.Context, _ string, _ *cache.Opts, _ [][]string, _ time.Duration) chan *cache.Update {
+					ch := make(chan *cache.Update, 1)
+					ch <- cache.NewUpdate([]string{"patterntest"}, sv, 0, "", 0)
+					close(ch)
+					return ch
+				})
+			scl, schema, err := testhelper.InitSDCIOSchema()
+			if err != nil {
+				t.Fatal(err)
+			}
+			d := &Datastore{config: &config.DatastoreConfig{Name: "dev1", Schema: schema, Validation: &config.Validation{DisableConcurrency: true}}, cacheClient: cc,
+				schemaClient: schemaClient.NewSchemaClientBound(schema.GetSchema(), scl), m: &sync.RWMutex{}, md: &sync.RWMutex{}}
+			ctx, cancel := context.WithCancel(context.Background())
+			st := &vrgStream{ctx: ctx, cancel: cancel}
+			// the first round sends one answer per subscription (and per store) plus the sync response
+			if strings.HasPrefix(how, "the client goes away") {
+				st.goneAt = nsub + 1
+			} else {
+				st.failFrom = 2*nsub + 2
+			}
+			req := &sdcpb.SubscribeRequest{Name: "dev1"}
+			for i := 0; i < nsub; i++ {
+				req.Subscription = append(req.Subscription, &sdcpb.Subscription{Path: []*sdcpb.Path{{Elem: []*sdcpb.PathElem{{Name: "patterntest"}}}}, DataType: sdcpb.DataType_CONFIG, SampleInterval: uint64(10 * time.Millisecond)})
+			}
+			in := fmt.Sprintf("subscriptions=%d,%s", nsub, how)
+			done := make(chan any, 1)
+			go func() {
+				defer func() {
+					if r := recover(); r != nil {
+						done <- r
+					}
+				}()
+				d.Subscribe(req, st)
+				done <- nil
+			}()
+			select {
+			case r := <-done:
+				if r != nil {
+					fmt.Printf("REPLAY-FAIL fn=%s clause=panic input=%s panic=%v\n", fn, in, r)
+				}
+			case <-time.After(3 * time.Second):
+				fmt.Printf("REPLAY-FAIL fn=%s clause=hang input=%s why=the call has not returned after 3 s\n", fn, in)
+			}
+			cancel()
+		}
+	}
+	fmt.Printf("REPLAY-CASES fn=%s n=%d\n", fn, n)
 }
